@@ -12,9 +12,9 @@ from sim.models import Forest
 
 
 # ------------------------------------------------------------------ traces
-def base_run(seed, clustered=None, n_mut=None, n_samples=None):
+def base_run(seed, clustered=None, n_mut=None, n_samples=None, sample_scheme=None):
     """A real simulated run that supplies loaded data / samples / clusters (and a genuine sampled trace)."""
-    spec = wp.spec_from_seed(seed, boundary=False, finite_clock=False, clustered=clustered, n_mut=n_mut, n_samples=n_samples, exotic=True)
+    spec = wp.spec_from_seed(seed, boundary=False, finite_clock=False, clustered=clustered, n_mut=n_mut, n_samples=n_samples, exotic=True, sample_scheme=sample_scheme)
     r = random.Random(seed ^ 0xABCDEF)
     spec["options"]["num_iters"] = r.choice([2, 5, 10])
     spec["options"]["grid_size"] = 11
@@ -66,7 +66,7 @@ def nested_majority_pool(n):
     return pools
 
 
-def synthetic_results(seed, base):
+def synthetic_results(seed, base, kind=None):
     """Assemble a trace directly from real Tree objects over the base run's loaded data."""
     from phyclone.tree import FSCRPDistribution, TreeJointDistribution
 
@@ -74,12 +74,21 @@ def synthetic_results(seed, base):
     res0 = base["results"][min(base["results"])]
     data = res0["data"]
     n = len(data)
-    kind = r.choice(["pool", "pool", "ties", "all_outliers", "single_clone", "nested", "many", "spread"])
+    kind_ = r.choice(["pool", "pool", "ties", "all_outliers", "single_clone", "nested", "many", "spread", "singletons"])
+    kind = kind or kind_
     pool = []
     if kind == "all_outliers":
         pool = [Forest((), (), frozenset(range(n)))] + [random_forest(r, n) for _ in range(r.choice([0, 1, 2]))]
     elif kind == "single_clone":
         pool = [Forest((frozenset(range(n)),), (-1,), frozenset())] + [random_forest(r, n) for _ in range(r.choice([0, 1]))]
+    elif kind == "singletons":
+        # every data point its own clone: as many clones as data points (two-digit node labels from 11 data points)
+        for _ in range(r.choice([1, 2, 4])):
+            pts = list(range(n))
+            r.shuffle(pts)
+            shape = r.choice(["chain", "star", "random"])
+            par = [(-1 if i == 0 or shape == "star" else (i - 1 if shape == "chain" else r.choice([-1] + list(range(i))))) for i in range(n)]
+            pool.append(Forest(tuple(frozenset([p]) for p in pts), tuple(par), frozenset()))
     elif kind == "nested" and nested_majority_pool(n):
         pool = r.choice(nested_majority_pool(n))
     elif kind == "many":
@@ -184,13 +193,17 @@ def check_table(results, table_text, newick, what, allow_empty_clones=False):
     per = {}
     clone_of_cluster = {}
     for row in rows:
+        if any(v is None for v in row.values()) or None in row:
+            P.append(({"sub": "row_truncated_or_ragged", "cmd": what}, "row %r" % (dict(row),)))
+            return P
+    for row in rows:
         cl = row["clone_id"]
         if cl != "-1" and cl not in labels:
             P.append(({"sub": "clone_not_in_tree", "cmd": what}, "clone_id %r is not a node of %r" % (cl, newick.strip())))
             break
         try:
             ccf, cp = float(row["ccf"]), float(row["clonal_prev"])
-        except ValueError:
+        except (ValueError, TypeError):
             P.append(({"sub": "value_unparsable", "cmd": what}, "row %r" % (row,)))
             break
         if cl == "-1":
@@ -248,7 +261,10 @@ def check_table_values(results, table_text, newick, what):
     tab = {}
     for row in rows:
         if row["clone_id"] != "-1":
-            tab[(row["clone_id"], row["sample_id"])] = float(row["ccf"])
+            try:
+                tab[(row["clone_id"], row["sample_id"])] = float(row["ccf"])
+            except (ValueError, TypeError):
+                return P  # reported by check_table
     label_of_node = {}
     for i, own in enumerate(f.own):
         for l, o in own_of_label.items():
@@ -433,8 +449,12 @@ def summary_task(item):
     seed, prop = item
     r = random.Random(seed)
     clustered = r.random() < 0.35
-    n_mut = r.choice([1, 2, 3, 4, 5, 6, 6, 8, 11, 14])
-    spec, base = base_run(runner.hash64(seed, "base") % (1 << 62), clustered=clustered, n_mut=n_mut, n_samples=r.choice([1, 1, 2, 3, 5]))
+    n_mut = r.choice([1, 2, 3, 4, 5, 6, 6, 8, 11, 12, 14, 18])
+    n_samples = r.choice([1, 1, 2, 3, 5])
+    wide = r.random() < 0.12  # correlated profile: many clones (two-digit node labels) x several numeric sample ids (time points)
+    if wide:
+        clustered, n_mut, n_samples = False, r.choice([12, 13, 14, 18]), r.choice([2, 3, 5])
+    spec, base = base_run(runner.hash64(seed, "base") % (1 << 62), clustered=clustered, n_mut=n_mut, n_samples=n_samples, sample_scheme="num" if wide else None)
     out = {"seed": seed, "problems": [], "probes": {}, "kind": None, "n_forms": 0, "chains": 0, "entries": 0, "commands": 0, "skipped": None,
            "sched": dict(base["stats"])}
     if base["results"] is None:
@@ -444,7 +464,7 @@ def summary_task(item):
         results, kind = base["results"], "sampled"
         nforms = len(tm.group_by_form(results))
     else:
-        results, kind, nforms = synthetic_results(seed, base)
+        results, kind, nforms = synthetic_results(seed, base, kind="singletons" if wide and r.random() < 0.7 else None)
     out["kind"] = kind
     out["n_forms"] = nforms
     out["chains"] = len(results)
